@@ -533,6 +533,10 @@ class DatasetProcessor:
         if os.path.exists(lock_file):
             if self.args.resume:
                 logger.info("Collected reads detected, will not process")
+                # alignment statistics are not stored; restore the only value used downstream
+                for bam_file in list(map(lambda x: x[0], sample.file_list)):
+                    bam = pysam.AlignmentFile(bam_file, "rb", require_index=True)
+                    self.alignment_stat_counter.add(AlignmentType.unaligned, bam.unmapped)
                 return
             else:
                 os.remove(lock_file)
